@@ -64,7 +64,15 @@ Hypothesis Hwf : wf_grammar g = true.
 Hypothesis HS : validS g A = true.
 Hypothesis HE : validE g A = true.
 Hypothesis Hac : acyclic_b g = true.
-Hypothesis Hhl : hlr_free_b g = true.
+(* a left-corner potential on a set P of rules that contains the start rule and
+   is closed under "occurs in a production of" *)
+Variable nl2 : list N.
+Variable rho : N -> nat.
+Variable P : N -> Prop.
+Hypothesis Hcl2 : nullable_closed g nl2 = true.
+Hypothesis Hpot : hl_pot_on P g nl2 rho (N.to_nat (nrules g)).
+Hypothesis HPstart : P (start_rule g).
+Hypothesis HPstep : forall p b, is_prod g p -> P (lhs g p) -> In (R b) (rhs g p) -> P b.
 Variable input : list N.
 
 Let Rk := N.to_nat (nrules g).
@@ -84,8 +92,8 @@ Proof.
   destruct stk as [|e stk']; [simpl; lia|].
   assert (Hne : e :: stk' <> []) by discriminate.
   destruct (stack_spine g A HS HE _ Hc Hne) as (p & d & Hsp).
-  destruct (hlr_free_b_cert g Hhl) as (nl & rho & Hcl & Hpot).
-  pose proof (spine_height g nl rho Hwf Hcl Hpot _ p d (chain_valid g A _ Hc) Hsp) as Hh.
+  pose proof (spine_height g nl2 rho P Hwf Hcl2 Hpot HPstart HPstep
+                _ p d (chain_valid g A _ Hc) Hsp) as Hh.
   etransitivity; [exact Hh|]. rewrite Hlv. unfold H.
   apply Nat.mul_le_mono_r. apply Nat.mul_le_mono_r. unfold n. lia.
 Qed.
@@ -131,7 +139,9 @@ End Bound.
 Lemma lr_terminates_b : lr_terminates_b_stmt.
 Proof.
   intros g A Hwf HS HE Hac Hhl input Hrng.
-  exact (run_returns g A Hwf HS HE Hac Hhl input Hrng).
+  destruct (hlr_free_b_cert g Hhl) as (nl & rho & Hcl & Hpot).
+  exact (run_returns g A Hwf HS HE Hac nl rho (fun _ => True) Hcl (hl_pot_on_all g nl rho _ Hpot) I
+           (fun _ _ _ _ _ => I) input Hrng).
 Qed.
 
 Lemma lr_terminates_b_exists : lr_terminates_b_exists_stmt.
